@@ -143,9 +143,15 @@ func init() {
 	}
 }
 
-var traitKindNames = func() []string {
+var traitKindNames []string
+
+// after every init() of the package (lookalike.go adds kinds)
+func traitKindNamesInit() []string {
 	r := []string{}
 	for k := range traitKinds {
+		if k == "alpriv" {
+			continue // out of domain
+		}
 		if len(k) == 3 && k[0] == 'p' && (k[2] == '0' || k[2] == '1') {
 			continue // session kinds are not drawn at random
 		}
@@ -156,7 +162,7 @@ var traitKindNames = func() []string {
 	}
 	sort.Strings(r)
 	return r
-}()
+}
 
 type traitCol struct {
 	kind     string
@@ -175,6 +181,10 @@ type genumCase struct {
 	bad    string // out-of-domain malformation ("" = in domain)
 	split  int    // 2: the enum types and the local trait types are declared in another file than the constants
 	out    string // custom output file name
+	// helpers: the definition file also holds hand-written functions that USE the generated API
+	// (IsValid, String, Parse<Type>): in a package without the generated file these calls do not
+	// type-check - the state of every first generation
+	helpers bool
 }
 
 func tf(b bool) string {
@@ -217,6 +227,9 @@ func (c *genumCase) header() string {
 	if c.bad != "" {
 		h += " bad=" + c.bad
 	}
+	if c.helpers {
+		h += " helpers=t"
+	}
 	return h + splitOutWords(c.split, c.out)
 }
 
@@ -232,7 +245,7 @@ func kv(ws []string) map[string]string {
 
 func parseGenum(ws []string) (*genumCase, error) {
 	m := kv(ws)
-	c := &genumCase{under: m["under"], shape: m["shape"], bad: m["bad"], only1: m["only1"] == "t", prev: m["prev"], file: m["file"]}
+	c := &genumCase{under: m["under"], shape: m["shape"], bad: m["bad"], only1: m["only1"] == "t", prev: m["prev"], file: m["file"], helpers: m["helpers"] == "t"}
 	var err0 error
 	if c.split, c.out, err0 = parseSplitOut(m); err0 != nil {
 		return nil, err0
@@ -440,6 +453,13 @@ func (c *genumCase) files(pkg, defName string) map[string]string {
 		}
 		b.WriteString(")\n\n")
 	}
+	if c.helpers {
+		for _, tn := range c.typeNames() {
+			fmt.Fprintf(&b, "func (e %[1]s) describe() string {\n\tif !e.IsValid() {\n\t\treturn \"?\"\n\t}\n\treturn e.String()\n}\n\n"+
+				"func must%[1]s(s string) %[1]s {\n\tv, err := Parse%[1]s(s)\n\tif err != nil {\n\t\tpanic(err)\n\t}\n\treturn v\n}\n\n"+
+				"var _, _ = %[1]s.describe, must%[1]s\n\n", tn)
+		}
+	}
 	res := map[string]string{defName: b.String()}
 	if split {
 		res[fileOfType(2, 0, defName)] = tb.String()
@@ -534,6 +554,8 @@ type gerrorCase struct {
 	bad    string
 	split  int    // 2 (with two): the two error types are declared in different files
 	out    string // custom output file name
+	// helpers: hand-written functions next to the struct that call the generated methods
+	helpers bool
 }
 
 func (c *gerrorCase) header() string {
@@ -554,12 +576,15 @@ func (c *gerrorCase) header() string {
 	if c.bad != "" {
 		h += " bad=" + c.bad
 	}
+	if c.helpers {
+		h += " helpers=t"
+	}
 	return h + splitOutWords(c.split, c.out)
 }
 
 func parseGerror(ws []string) (*gerrorCase, error) {
 	m := kv(ws)
-	c := &gerrorCase{skip: m["skip"] == "t", custom: m["custom"] == "t", two: m["two"] == "t", bad: m["bad"], only1: m["only1"] == "t", prev: m["prev"], file: m["file"]}
+	c := &gerrorCase{skip: m["skip"] == "t", custom: m["custom"] == "t", two: m["two"] == "t", bad: m["bad"], only1: m["only1"] == "t", prev: m["prev"], file: m["file"], helpers: m["helpers"] == "t"}
 	var err0 error
 	if c.split, c.out, err0 = parseSplitOut(m); err0 != nil {
 		return nil, err0
@@ -708,6 +733,12 @@ func (c *gerrorCase) render(pkg string, idx []int, withDecls bool) string {
 		if c.bad == "" && target {
 			fmt.Fprintf(&b, "var Err%s = gerror.FactoryOf(&%s{GError: gerror.GError{Name: %q, Message: \"m\"}})\n\n", tn, tn, "Err"+tn)
 		}
+		if c.helpers && c.bad == "" && target {
+			// toPrimaryType exists in the generated file only
+			fmt.Fprintf(&b, "func primary%[1]s(e *%[1]s) gerror.Error { return e.toPrimaryType(&e.GError) }\n\n"+
+				"func describe%[1]s(e *%[1]s) string { return e.Error() + e.Msg(\"x\").Error() }\n\n"+
+				"var _, _ = primary%[1]s, describe%[1]s\n\n", tn)
+		}
 		if c.skip && c.custom && target {
 			fmt.Fprintf(&b, `func (e *%[1]s) Convert(err error) gerror.Error {
 	if gerr, ok := err.(gerror.Error); ok {
@@ -793,6 +824,8 @@ type gsortCase struct {
 	bad    string
 	split  int    // 2..4: the struct types are declared in that many files
 	out    string // custom output file name
+	// helpers: hand-written functions next to the structs that sort through the generated sorter types
+	helpers bool
 }
 
 func (c *gsortCase) nTypes() int {
@@ -834,12 +867,15 @@ func (c *gsortCase) header() string {
 	if c.nt > 2 {
 		h += fmt.Sprintf(" nt=%d", c.nt)
 	}
+	if c.helpers {
+		h += " helpers=t"
+	}
 	return h + splitOutWords(c.split, c.out)
 }
 
 func parseGsort(ws []string) (*gsortCase, error) {
 	m := kv(ws)
-	c := &gsortCase{two: m["two"] == "t", bad: m["bad"], only1: m["only1"] == "t", prev: m["prev"], file: m["file"]}
+	c := &gsortCase{two: m["two"] == "t", bad: m["bad"], only1: m["only1"] == "t", prev: m["prev"], file: m["file"], helpers: m["helpers"] == "t"}
 	var err0 error
 	if c.split, c.out, err0 = parseSplitOut(m); err0 != nil {
 		return nil, err0
@@ -943,8 +979,12 @@ func (c *gsortCase) render(pkg string, idx []int, withDecls bool) string {
 		il = append(il, i)
 	}
 	sort.Strings(il)
+	if c.helpers && withDecls && !imps["sort"] && len(c.sorters()) > 0 {
+		il = append(il, "sort")
+		sort.Strings(il)
+	}
 	for _, i := range il {
-		if len(idx) > 0 {
+		if len(idx) > 0 || i == "sort" {
 			fmt.Fprintf(&b, "import %q\n\n", i)
 		}
 	}
@@ -956,6 +996,27 @@ func (c *gsortCase) render(pkg string, idx []int, withDecls bool) string {
 	for _, d := range dl {
 		if withDecls {
 			b.WriteString(d + "\n")
+		}
+	}
+	if c.helpers && withDecls {
+		// hand-written callers of the generated sorter types (of the types the run is asked for)
+		for ti, tn := range c.typeNames() {
+			seen := map[string]bool{}
+			for _, f := range c.fields {
+				for _, t := range f.tags {
+					n := strings.Split(t, ",")[0]
+					elem := tn
+					if strings.HasPrefix(n, "*") {
+						n, elem = n[1:], "*"+tn
+					}
+					n += sorterSuffix(ti)
+					if seen[n] {
+						continue
+					}
+					seen[n] = true
+					fmt.Fprintf(&b, "func sort%[1]s(xs []%[2]s) { sort.Sort(%[1]s(xs)) }\n\nvar _ = sort%[1]s\n\n", n, elem)
+				}
+			}
 		}
 	}
 	for ti, tn := range c.allTypeNames() {
